@@ -893,7 +893,11 @@ func checkConfigMerge(p *load.Program, r *kit.Report, rule string, f *ssa.Functi
 	kit.AllInstrs(f, func(in ssa.Instruction) {
 		c, ok := in.(*ssa.Call)
 		if ok && kit.CallID(c) == "builtin.append" && len(c.Call.Args) == 2 && kit.DependsOn(c.Call.Args[1], func(x ssa.Value) bool { return loadOfField(x, cfgF) }) {
-			ap = c
+			// the append that takes one configured hash inside the loop over them (a later
+			// `append(merged, missing...)` that installs the collected hashes is not it)
+			if ap == nil || (len(cycleOf(c.Block())) > 0 && len(cycleOf(ap.Block())) == 0) {
+				ap = c
+			}
 		}
 	})
 	key := "load/every-configured-hash-merged"
